@@ -205,6 +205,7 @@ def diag_variables(layer: str, s: "Sel", rich: bool, svc: str) -> str:
     return X("DIAG-VARIABLES",
              X("DIAG-VARIABLE", names("dv1", "Diag variable", "dv desc"),
                o("dv_admin", "DiagVariable.admin_data", admin_data("KS.CD", "KS.CD.doggy")),
+               (X("VARIABLE-GROUP-REF", ID_REF=layer + ".VG.vg1") if (rich and s.on("vg_base", "BaseVariantRaw.variable_groups")) else ""),
                o("dv_sw_variables", "DiagVariable.sw_variables",
                  X("SW-VARIABLES", X("SW-VARIABLE", names("swv", "software variable", "swv desc"), T("ORIGIN", "somewhere"), OID="oid.swv"))),
                X("COMM-RELATIONS",
@@ -535,7 +536,8 @@ def container_ks(s: "Sel") -> Dict[str, Any]:
         dops=[dict(name="sh_u8", dct=std(8)), dict(kind="struct", name="sh_st", params=[dict(t="VALUE", name="a", dop="sh_u8", byte=0)]),
               dict(kind="table", name="sh_tab", key_dop="sh_u8", rows=[dict(name="s1", key=1, struct="sh_st")], feat=("table", ""))],
         msgs=[dict(kind="REQUEST", name="sh_rq", params=[cc("sid", 0x12, 0)])], svcs=[dict(name="svc_sh", request="sh_rq")],
-        tail_xml=s.opt("dv_shared", "EcuSharedDataRaw.diag_variables_raw", diag_variables("ksshared", s, False, "svc_sh")),
+        tail_xml=s.opt("dv_shared", "EcuSharedDataRaw.diag_variables_raw", diag_variables("ksshared", s, False, "svc_sh")) +
+        s.opt("vg_shared", "EcuSharedDataRaw.variable_groups", variable_groups("ksshared")),
     )
     ecu = dict(
         type="ECU-VARIANT", name="ksecu", long_name="ecu variant",
@@ -547,7 +549,8 @@ def container_ks(s: "Sel") -> Dict[str, Any]:
               dict(ref=B + ".svc_dyn_read", feat=("diag_comm_ref", "DiagLayerRaw.diag_comms_raw<OdxLinkRef>"))],
         variant_xml=s.opt("ev_patterns", "EcuVariantRaw.ecu_variant_patterns", ecu_variant_patterns(s)) +
         s.opt("dyn_spec_ecu", "EcuVariantRaw.dyn_defined_spec", dyn_defined_spec(B, "tab")) +
-        s.opt("dv_ecu", "EcuVariantRaw.diag_variables_raw", diag_variables("ksecu", s, False, "svc_ev")),
+        s.opt("dv_ecu", "EcuVariantRaw.diag_variables_raw", diag_variables("ksecu", s, False, "svc_ev")) +
+        s.opt("vg_ecu", "EcuVariantRaw.variable_groups", variable_groups("ksecu")),
     )
     return dict(name="KS", long_name="kitchen sink container", layers=[prune(proto, s), prune(fg, s), prune(shared, s), ksbase(s), prune(ecu, s)],
                 head_xml=desc("container desc", ext=s.on("desc_external_docs", "Description.external_docs"),
